@@ -27,6 +27,11 @@ def ops : List (String × Op) := [
   ("fsq", do
       let q ← pDict
       pure ("ok " ++ (match filterSort q with | none => "None" | some d => showDict d))),
+  ("xq", do
+      let k ← pIvKind; let own ← pDict; let par ← pOptDict; let attrs ← pList pOptStr
+      pure (match exportQualifiers k own par attrs with
+            | some d => "ok " ++ showDict d
+            | none => "err! AttributeError")),
   ("gbiotype", do
       let tys ← pList pStr
       pure (match geneBiotype (tys.map txBiotypeName) with
